@@ -92,6 +92,34 @@ func (o *oracles) checkComplete(v *ViewSig, processed []string, what string) {
 			}
 		}
 	}
+	// searches through the view: no stream twice, no stream the view does not
+	// list, and a search without a filter lists every stream of the view
+	ids := map[uint64]bool{}
+	for _, sl := range v.Streams {
+		ids[sl.ID] = true
+	}
+	for _, q := range sortedKeys(v.Search) {
+		res := v.Search[q]
+		seen := map[uint64]bool{}
+		for _, id := range res {
+			if seen[id] {
+				if o.violate("complete", "search-duplicate", fmt.Sprintf("%s: search %q lists stream %d twice: %v", what, q, id, res)) {
+					return
+				}
+			}
+			seen[id] = true
+			if !ids[id] {
+				if o.violate("complete", "search-foreign", fmt.Sprintf("%s: search %q lists stream %d, which the view's stream list does not contain", what, q, id)) {
+					return
+				}
+			}
+		}
+		if (q == "sort:ftime" || q == "sort:id") && len(seen) != len(ids) {
+			if o.violate("complete", "search-incomplete", fmt.Sprintf("%s: search %q lists %d streams, the view has %d", what, q, len(seen), len(ids))) {
+				return
+			}
+		}
+	}
 	o.s.res.Count("c10_complete_checks", 1)
 }
 
@@ -111,7 +139,7 @@ func (o *oracles) viewOpened(op Op, r OpResult) {
 		o.s.res.Count("probe_view_opened_during_jobs", 1)
 		o.s.res.NonTriv = true
 	}
-	if !o.on("C10", "C05", "C07") {
+	if !o.on("C10", "C05", "C07", "C12") {
 		if v.Err != "" && o.on("C13") {
 			o.violate("view-read", "read-failed", "opening a view failed: "+v.Err)
 		}
@@ -140,7 +168,22 @@ func (o *oracles) viewRead(op Op, r OpResult) {
 		}
 	}
 	if h := v.Hash(); h != hv.hash {
-		if o.violate("stable", "unstable:"+diffKind(hv.first, v), fmt.Sprintf("view %d opened at step %d answers differently now: %s", op.V, hv.openStep, diffViews(hv.first, v))) {
+		kind := diffKind(hv.first, v)
+		if kind == "search" && len(o.s.plan.Converters) > 0 {
+			// which query? a payload search that is not restricted to the raw payload
+			// also looks at cached converter output, and that cache belongs to the
+			// service, not to the view
+			onlyConv := true
+			for _, q := range sortedKeys(hv.first.Search) {
+				if fmt.Sprint(hv.first.Search[q]) != fmt.Sprint(v.Search[q]) && !(strings.Contains(q, "data:") || strings.Contains(q, "data.")) || strings.Contains(q, "data.none") && fmt.Sprint(hv.first.Search[q]) != fmt.Sprint(v.Search[q]) {
+					onlyConv = false
+				}
+			}
+			if onlyConv {
+				kind = "search/converter-output"
+			}
+		}
+		if o.violate("stable", "unstable:"+kind, fmt.Sprintf("view %d opened at step %d answers differently now: %s", op.V, hv.openStep, diffViews(hv.first, v))) {
 			return
 		}
 	}
